@@ -754,8 +754,12 @@ MC_INIT
                     b[p] = 0xFD; // larger than every pattern byte
                     t_cmp(s.data(), L, b.data(), L);
                     t_cmp(b.data(), L, s.data(), L);
-                    t_cmp(s.data(), p, s.data(), L); // a proper prefix
-                    t_cmp(s.data(), L, s.data(), p);
+                    {
+                        std::vector<uint8_t> pre(s.begin(), s.begin() + p); // a proper prefix
+                        pre.push_back(0);
+                        t_cmp(pre.data(), p, s.data(), L);
+                        t_cmp(s.data(), L, pre.data(), p);
+                    }
                     for (size_t n : {p, p + 1, (size_t)255, (size_t)256, (size_t)257, L, NMAX})
                     {
                         t_ncmp(s.data(), L, b.data(), L, n);
@@ -778,8 +782,12 @@ MC_INIT
                 for (size_t p : P)
                 {
                     size_t nl = p + 3 <= L ? 3 : L - p;
-                    t_search(s.data(), L, s.data() + p, nl, false, false);
-                    t_search(s.data(), L, s.data() + p, nl, true, false);
+                    {
+                        std::vector<uint8_t> n3(s.begin() + p, s.begin() + p + nl);
+                        n3.push_back(0);
+                        t_search(s.data(), L, n3.data(), nl, false, false);
+                        t_search(s.data(), L, n3.data(), nl, true, false);
+                    }
                     // a needle that occurs only at p
                     b = s;
                     b[p] = 0xFE;
